@@ -464,13 +464,11 @@ class SVG:
             svg.apply_style_attributes(inplace=True)
             return svg
 
-        if self.elements:
-            # if we already parsed the SVG shapes, apply style attrs and sync tree
-            for shape in self.shapes():
-                shape.apply_style_attribute(inplace=True)
-            self._update_etree()
+        # write any pending shape edits to the tree, then parse all style attributes
+        # there (shapes, groups, gradients, root svg element), so that the outcome
+        # does not depend on whether the shapes happen to be cached
+        self._update_etree()
 
-        # parse all remaining style attributes (e.g. in gradients or root svg element)
         for el in itertools.chain((self.svg_root,), self.xpath("//svg:*[@style]")):
             self._apply_styles(el)
 
